@@ -694,7 +694,7 @@ def c01k(ctx):
     o2.sites = len(cs)
     for s_ in cs:
         os_ = list(df.origins_deep(prog, s_.body, s_.node["args"][8]))
-        if not os_ or not all(x.kind == "call" and re.search(r"PartialEq::(eq|ne)$", x.callee() or "") for x in os_):
+        if not os_ or not all(x.kind == "call" and re.search(r"PartialEq::eq$", x.callee() or "") for x in os_):
             ctx.fail(o2, s_, "clean_existing_forward_edges is %s instead of `execute_query_for == RecomputeQuery`: stale dirty marks survive a recomputation "
                      "(or are cleaned for a fresh node)" % sorted(str(x) for x in os_))
     if len(cs) != 1:
